@@ -171,7 +171,9 @@ class BGP(protocol.Protocol):
         # Buffer possibly incomplete data first
         self._receive_buffer += data
         while self.parse_buffer():
-            pass
+            if self.disconnected:
+                # we closed the connection while handling that message
+                break
 
     def parse_buffer(self):
         """
